@@ -169,19 +169,28 @@ def series_inverse(cup):
     x = sp.Symbol("x")
     d = {(n, l): sp.Symbol(f"dd{n}{l}") for n in range(1, 4) for l in range(0, n + 1)}
     f = x * (1 + sum(cup.get((n, l), 0) * x**n * L**l for n in range(1, 4) for l in range(0, n + 1)))
-    gser = f * (1 + sum(d[n, l] * f**n * L**l for (n, l) in d))
-    gser = _trunc(gser - x, x, 4)
-    eqs = []
-    for k in range(2, 5):
-        ck = sp.expand(gser.coeff(x, k))
-        for l in range(0, 4):
+    # powers of f truncated at x^4 (keeps the expansion small)
+    fp = {1: _trunc(f, x, 4)}
+    for n in range(2, 5):
+        fp[n] = _trunc(fp[n - 1] * fp[1], x, 4)
+    gser = fp[1] + sum(d[n, l] * fp[n + 1] * L**l for (n, l) in d) - x
+    gser = sp.expand(gser)
+    # triangular: order x^(n+1) fixes d[n, *] linearly once lower orders are known
+    known = {}
+    for n in range(1, 4):
+        ck = sp.expand(gser.coeff(x, n + 1).subs(known))
+        for l in range(0, n + 1):
             e = ck.coeff(L, l)
-            if e != 0 or True:
-                eqs.append(e)
-    eqs = [e for e in eqs if e != 0]
-    sol = sp.solve(eqs, list(d.values()), dict=True)
-    assert len(sol) == 1
-    return {k: sp.expand(sol[0].get(v, 0)) for k, v in d.items()}
+            # e = d[n,l] + (known stuff)
+            rest = sp.expand(e - d[n, l])
+            assert not rest.has(d[n, l])
+            known[d[n, l]] = sp.expand(-rest)
+        # no higher power of L may survive at this order
+        left = sp.expand(ck.subs(known))
+        if left != 0:
+            assert left.free_symbols <= {L}, left
+            assert all(abs(complex(cc)) < 1e-18 for cc in sp.Poly(left, L).all_coeffs()), left
+    return {k: known[v] for k, v in d.items()}
 
 
 @functools.lru_cache(maxsize=None)
@@ -201,19 +210,24 @@ def derive_mass():
     dL = 1 + 2 * sum(gp[k] * x ** (k + 1) for k in range(2))
     # d fac/dt = fac * (-gamma'(a') + gamma(a))
     lhs = sp.diff(fac, x) * dx + sp.diff(fac, L) * dL
-    rhs = fac * (-sum(gp[k] * x ** (k + 1) for k in range(3)) + sum(g[k] * alow ** (k + 1) for k in range(3)))
+    al = {1: _trunc(alow, x, 3)}
+    al[2] = _trunc(al[1] * al[1], x, 3)
+    al[3] = _trunc(al[2] * al[1], x, 3)
+    dgam = _trunc(-sum(gp[k] * x ** (k + 1) for k in range(3)) + sum(g[k] * al[k + 1] for k in range(3)), x, 3)
+    rhs = _trunc(fac * dgam, x, 3)
     eq = _trunc(lhs - rhs, x, 3)
-    unknowns = [d[n, l] for (n, l) in d if l >= 1]
-    eqs = []
-    for k in range(1, 4):
-        ck = sp.expand(eq.coeff(x, k))
-        for l in range(0, 4):
-            e = ck.coeff(L, l)
-            if e != 0:
-                eqs.append(e)
-    sol = sp.solve(eqs, unknowns, dict=True)
-    assert len(sol) == 1, sol
-    out = {(n, l): sp.simplify(sol[0][d[n, l]]) for (n, l) in d if l >= 1}
+    # triangular: at order x^n the coefficient of L^(l-1) reads l*d_nl + (lower orders) = 0
+    known = {}
+    for n in range(1, 4):
+        ck = sp.expand(sp.expand(eq.coeff(x, n)).subs(known))
+        for l in range(n, 0, -1):
+            e = ck.coeff(L, l - 1)
+            rest = sp.expand(e - l * d[n, l])
+            assert not rest.has(d[n, l]), rest
+            known[d[n, l]] = sp.expand(-rest / l)
+        left = sp.expand(ck.subs(known))
+        assert left == 0, left
+    out = {(n, l): known[d[n, l]] for (n, l) in d if l >= 1}
     out[1, 0] = sp.Integer(0)
     out[2, 0] = D20
     out[3, 0] = D30
